@@ -5,6 +5,8 @@
 From RS Require Import Base.Prelude Base.Text Codec.Vlq Codec.CodecSpec Stream.Types Stream.Leaves
   Stream.Concat Stream.Tree Checkers.ChkTree Proofs.StreamText Proofs.StreamLeaves Proofs.StreamMap
   Proofs.StreamConcat Proofs.StreamTree Stream.Replace Proofs.RStreamText Proofs.RStreamPos Proofs.RStreamTree.
+From RS Require Import Sem.Attr.
+From RS Require Proofs.AttrCodec Proofs.WfFinal Proofs.FinalTree.
 
 Theorem C02_advance_compositional : forall l c a b,
   advance l c (a ++ b) = let '(l', c') := advance l c a in advance l' c' b.
@@ -69,3 +71,17 @@ Theorem C02_positions : forall st s cols,
   gi = advance 1 0 (source s) /\ st' = st.
 Proof. exact rshape_stream_good. Qed.
 Print Assumptions C02_positions.
+
+(* the text-less mode (final_source = true, columns = true) of the same class, ReplaceSource
+   included: every segment lies on a position of source(), segments are sorted, the end info is
+   the end of source(), the cache store is untouched *)
+Theorem C02_positions_final : forall st s,
+  RStreamTree.rshape s = true -> treeA s = true -> rsmall s = true ->
+  let r := stream st s (mkOpts true true) in
+  AttrCodec.dense (fst (fst r)) 0 0 = true /\
+  positions_of_text (source s) (chunks_of (fst (fst r))) = true /\
+  snd (fst r) = advance 1 0 (source s) /\
+  sorted_by pos_le (chunk_mappings (fst (fst r))) = true /\
+  snd r = st.
+Proof. exact FinalTree.final_stream_facts. Qed.
+Print Assumptions C02_positions_final.
